@@ -8,7 +8,7 @@ RULE = ("random operation sequences (length <= 12 quick / <= 40 thorough) on rea
         "malformed stream (absent knots, end knots, outside nodes, excess multiplicity, non-positive scale, different intervals); plus a "
         "malformed constructor stream (unsorted, unclamped, tail after the clamped block, constant, too short, non-numeric, NaN).  "
         "Non-trivial: a sequence with at least one interior knot or degree >= 2; distinct = distinct (start vector, op list)."
-        " Also: affine maps of float vectors at the edge of the float range (1e16, 5e-324, overflow, NaN, inf, complex).")
+        " Also: affine maps of float vectors at the edge of the float range (1e16, 5e-324, overflow, NaN, inf, complex); nodes of insert / remove / += / -= / span / mult / valid as list, tuple, generator, iterator, map, ndarray.")
 EXPLANATION = ("L2: after every step the observable tuple (elements, degree, npts, knots, limits, span/mult/valid on probe nodes) is "
                "compared with the Lean state machine; L3: the well-formedness predicate and the span/mult specifications are evaluated "
                "directly on the real object after every step, and the object is re-read after every raising call (must be unchanged).")
@@ -74,6 +74,15 @@ def query_problems(kv):
     sp = impl(lambda: kv.span(probe_nodes(U)))
     if sp[0] == "ok" and tuple(sp[1]) != tuple(kv.span(u) for u in probe_nodes(U)):
         out.append("span(sequence) != per-node spans")
+    # the same queries with the nodes handed over as tuple / generator / iterator / map / ndarray
+    pn = probe_nodes(U)
+    for form in FORMS[1:]:
+        for q, name in ((kv.span, "span"), (kv.mult, "mult")):
+            r = impl(lambda: q(as_form(pn, form)))
+            if r[0] != "ok" or tuple(r[1]) != tuple(q(u) for u in pn):
+                out.append("%s(nodes as %s) != per-node answers" % (name, form))
+        if kv.valid(as_form(pn, form)) is not True or kv.valid(as_form(pn + [U[-1] + 1], form)) is not False:
+            out.append("valid(nodes as %s) wrong" % form)
     return out
 
 
@@ -110,14 +119,15 @@ def model_obs(m):
 def apply_op(kv, op):
     """apply one operation to the real object; returns the (possibly new) object"""
     k = op[0]
+    form = form_of(list(op)) if k in ("insert", "remove", "iadd_list", "isub_list") else None
     if k == "insert":
-        kv.insert(list(op[1]))
+        kv.insert(as_form(op[1], form))
     elif k == "remove":
-        kv.remove(list(op[1]))
+        kv.remove(as_form(op[1], form))
     elif k == "iadd_list":
-        kv += list(op[1])
+        kv += as_form(op[1], form)
     elif k == "isub_list":
-        kv -= list(op[1])
+        kv -= as_form(op[1], form)
     elif k == "iadd_num":
         kv += op[1]
     elif k == "isub_num":
